@@ -239,6 +239,25 @@ StepResult(st, o, c, sc) ==
                  ELSE IF b.oc = "runtime_error" /\ primary # b.out THEN "output before the error differs from the library run"
                  ELSE IF b.oc # "ok" /\ o.err_empty THEN "no error message on standard error" ELSE ""
             ELSE ""]
+    [] st.op = "threads" ->
+         \* C14: n clones of the context run the same compiled program at the same time, `reps` times each; every thread
+         \* must observe exactly what a sequential run gives, and the library must not race
+         LET RECURSIVE Reps(_, _, _)
+             Reps(S, outacc, r) == IF r = 0 THEN [S |-> S, out |-> outacc]
+                                   ELSE LET S1 == RunProgram(st.ast, Settle(S)) IN
+                                        IF Failed(S1) THEN [S |-> S1, out |-> outacc \o S1.out] ELSE Reps(S1, outacc \o S1.out, r - 1)
+             ideal == Reps(CtxOf(c, st.ctx), "", st.reps)
+             want == ideal.S
+             bad == {j \in DOMAIN o.per :
+                       \/ (o.per[j].oc = "ok") # ~Failed(want)
+                       \/ o.per[j].out # ideal.out
+                       \/ DumpWhy(o.per[j] @@ [ctrl |-> 0, lvl |-> 0, brk |-> FALSE, cont |-> FALSE, ret |-> FALSE, undo |-> 0, parsing |-> FALSE], Settle(want)) # ""}
+         IN [C |-> c, why |->
+               IF o.oc # "ok" THEN "the program was not compiled: " \o o.oc
+               ELSE IF Len(o.per) # st.n THEN "missing thread results"
+               ELSE IF o.races # <<>> THEN "data race inside the library: " \o ToJson(o.races)
+               ELSE IF bad # {} THEN "thread " \o ToString(CHOOSE j \in bad : TRUE) \o " did not observe the sequential result; expected output: " \o ideal.out
+               ELSE ""]
     [] st.op = "tokens" ->
          \* C13: the token sequence is the same however the text reached the scanner
          [C |-> c, why |-> IF Has(st, "same_toks_as") /\ o.toks # sc.obs[st.same_toks_as].toks
